@@ -380,6 +380,43 @@ pub fn run(o: &DriveOpts, out: &mut dyn Write, tid: usize) -> Value {
         }
     }
 
+    if profile == "deepchain" {
+        // ONE path of 140 (capacity permitting) vertices through nine or ten groups (chains of at most 15 built apart, then
+        // linked: binding two grouped vertices changes no group), data here and there; the observers at the end (inspect from
+        // the head walks 139 edges deep), then the groups read out from the tail
+        let nl = o.n.max(1).min(labels.len());
+        let total = 140usize.min(o.cap);
+        let seg = 15usize;
+        for v in 0..total {
+            ok = ok && rec.call(&mut w, HCall { h: 0, call: Call::Add { v } });
+        }
+        for v in 0..total.saturating_sub(1) {
+            if (v + 1) % seg != 0 {
+                ok = ok && rec.call(&mut w, HCall { h: 0, call: Call::Bind { v1: v, v2: v + 1, a: labels[v % nl].clone() } });
+            }
+        }
+        for v in 0..total.saturating_sub(1) {
+            if (v + 1) % seg == 0 {
+                // the last vertex of a segment and the first of the next are both grouped already (segments of two or more)
+                ok = ok && rec.call(&mut w, HCall { h: 0, call: Call::Bind { v1: v, v2: v + 1, a: labels[v % nl].clone() } });
+            }
+        }
+        for v in (0..total).step_by(7) {
+            ok = ok && rec.call(&mut w, HCall { h: 0, call: Call::Put { v, d: datas[v % datas.len()].clone() } });
+        }
+        if ok {
+            // all printers once; inspect from the head and from every 35th vertex (the judge computes each reachable set)
+            let what: Vec<String> = ["xml", "dot", "debug", "display", "inspect:35"].iter().map(|x| x.to_string()).collect();
+            rec.events += crate::observers::observe_all(&w, 0, rec.tid, &what, rec.out);
+        }
+        for v in (0..total).step_by(7).collect::<Vec<_>>().into_iter().rev() {
+            if ok && w.g(0).keys().unwrap_or_default().contains(&v) {
+                ok = rec.call(&mut w, HCall { h: 0, call: Call::Data { v } });
+            }
+        }
+        return json!({"t": tid, "profile": o.profile, "n": o.n, "cap": o.cap, "seed": o.seed, "events": rec.events, "panicked": !ok});
+    }
+
     if profile == "slice14" {
         // slices of exactly 14 vertices taken from 14 DIFFERENT groups while all 14 groups are alive: 14 pairs
         // 2i -> 2i+1, the odd ones chained 1 -> 3 -> ... -> 27 (binding two grouped vertices changes no group), now and then
@@ -1010,6 +1047,14 @@ pub fn run(o: &DriveOpts, out: &mut dyn Write, tid: usize) -> Value {
                 let a = (*free.choose(rng).unwrap()).clone();
                 u.push(a.clone());
                 ok = ok && rec.call(w, HCall { h, call: Call::Bind { v1: par, v2: verts[i], a } });
+            }
+            // extra vertices with an edge INTO the tree (to the root or deeper): not reachable from the root all the same; at most
+            // two of them, and only on the right, small trees (they join the tree's group)
+            if h == 1 && !ext.is_empty() && verts.len() <= 12 && rng.gen_bool(0.5) {
+                for (j, x) in ext.iter().take(2).enumerate() {
+                    let t = if j == 0 || rng.gen_bool(0.5) { verts[0] } else { *verts.choose(rng).unwrap() };
+                    ok = ok && rec.call(w, HCall { h, call: Call::Bind { v1: *x, v2: t, a: labels.choose(rng).unwrap().clone() } });
+                }
             }
             for v in verts.iter().chain(ext.iter()) {
                 if rng.gen_bool(0.5) {
